@@ -2,6 +2,7 @@ package main
 
 import (
 	"fmt"
+	"io"
 	"math"
 	"regexp"
 	"strconv"
@@ -17,11 +18,11 @@ import (
 func init() { gens["C04"] = genC04 }
 
 type c04Input struct {
-	Unit    string `json:"unit"`  // Go-quoted
-	Value   string `json:"value"` // as written on the benchmark line
-	Bits    string `json:"value_bits"`
-	Unit2   string `json:"unit2,omitempty"`
-	Val2    string `json:"val2,omitempty"`
+	Unit    string   `json:"unit"`  // Go-quoted
+	Value   string   `json:"value"` // as written on the benchmark line
+	Bits    string   `json:"value_bits"`
+	Unit2   string   `json:"unit2,omitempty"`
+	Val2    string   `json:"val2,omitempty"`
 	Lookups []string `json:"lookups,omitempty"`
 }
 
@@ -201,9 +202,9 @@ func c04One(o *hx.Out, r *hx.Rng, u string, v float64, tags ...string) (err erro
 }
 
 type c04SeqInput struct {
-	Kind    string `json:"kind"`
-	Text    string `json:"text"` // Go-quoted
-	Filter  string `json:"filter"`
+	Kind    string   `json:"kind"`
+	Text    string   `json:"text"` // Go-quoted
+	Filter  string   `json:"filter"`
 	Lookups []string `json:"lookups"`
 }
 
@@ -477,6 +478,363 @@ func c04GenSeqF(o *hx.Out, r *hx.Rng, n int) error {
 			lines = append(lines, line(us...))
 		}
 		if err := c04SeqF(o, terms, list, lines, lookups, "random"); err != nil {
+			return err
+		}
+	}
+	return nil
+}
+
+// ---------- texts LONGER than the line scanner's buffer ----------
+
+// c04ChunkReader hands out at most n bytes per Read.
+type c04ChunkReader struct {
+	s string
+	n int
+}
+
+func (c *c04ChunkReader) Read(p []byte) (int, error) {
+	if len(c.s) == 0 {
+		return 0, io.EOF
+	}
+	k := c.n
+	if k > len(p) {
+		k = len(p)
+	}
+	if k > len(c.s) {
+		k = len(c.s)
+	}
+	copy(p, c.s[:k])
+	c.s = c.s[k:]
+	return k, nil
+}
+
+type c04LongInput struct {
+	Kind    string   `json:"kind"` // long-text
+	Text    string   `json:"text"` // Go-quoted
+	Bytes   int      `json:"bytes"`
+	Chunk   int      `json:"read_chunk"` // 0: the whole text is available to every Read
+	Filter  string   `json:"filter"`
+	Lookups []string `json:"lookups"`
+}
+
+// c04LongLine is one line of a long text, as written.
+type c04LongLine struct {
+	text string // the line without "\n"
+	unit bool   // a "Unit u better=val" line
+	u    string
+	val  string
+	us   []string
+	vs   []float64
+}
+
+// c04Long reads a text longer than bufio.Scanner's 4096-byte buffer through
+// ONE Reader and ONE Filter.  Every record is observed when delivered, and the
+// caller's retained copies (Result.Clone before and after Apply, the
+// *UnitMetadata pointers) are read AGAIN after the whole text was scanned.
+func c04Long(o *hx.Out, lit string, lines []c04LongLine, chunk int, lookups []string, tags ...string) (err error) {
+	defer func() {
+		if p := recover(); p != nil {
+			err = fmt.Errorf("PANIC-INPUT long text filter=%q: %v", lit, p)
+		}
+	}()
+	var sb strings.Builder
+	for _, l := range lines {
+		sb.WriteString(l.text + "\n")
+	}
+	text := sb.String()
+	query := ".unit:" + strconv.Quote(lit)
+	flt, ferr := benchproc.NewFilter(query)
+	if ferr != nil {
+		o.Count("filter-unparsable")
+		return nil
+	}
+	type kept struct {
+		full, after *benchfmt.Result
+		wr, mb      []hx.Sx
+		kept        bool
+	}
+	results := make([]*kept, len(lines))
+	metas := make([][]*benchfmt.UnitMetadata, len(lines)) // nil entry = syntax error
+	items := make([]hx.Sx, len(lines))
+	recs := make([][]hx.Sx, len(lines))
+	var src io.Reader = strings.NewReader(text)
+	if chunk > 0 {
+		src = &c04ChunkReader{text, chunk}
+	}
+	rdr := benchfmt.NewReader(src, "f")
+	for rdr.Scan() {
+		rec := rdr.Result()
+		_, ln := rec.Pos()
+		if ln < 1 || ln > len(lines) {
+			return fmt.Errorf("record at line %d of long text", ln)
+		}
+		l := lines[ln-1]
+		switch x := rec.(type) {
+		case *benchfmt.Result:
+			if l.unit || len(x.Values) != len(l.us) || results[ln-1] != nil {
+				return fmt.Errorf("unexpected result at line %d (%q)", ln, l.text)
+			}
+			k := &kept{full: x.Clone()}
+			for i := range x.Values {
+				k.wr = append(k.wr, hx.L(hx.S(l.us[i]), hx.F64(l.vs[i])))
+			}
+			m, merr := flt.Match(x)
+			if merr != nil {
+				return merr
+			}
+			for i := range x.Values {
+				k.mb = append(k.mb, hx.Bool(m.Test(i)))
+			}
+			k.kept = m.Apply(x)
+			var after []hx.Sx
+			for _, v := range x.Values {
+				after = append(after, hx.L(hx.F64(v.Value), hx.S(v.Unit), hx.F64(v.OrigValue), hx.S(v.OrigUnit)))
+			}
+			k.after = x.Clone()
+			results[ln-1] = k
+			items[ln-1] = hx.L(hx.I(0), hx.List(k.wr), hx.List(k.mb), hx.Bool(k.kept), hx.List(after))
+		case *benchfmt.UnitMetadata:
+			if x.Key != "better" {
+				return fmt.Errorf("unexpected metadata key %q", x.Key)
+			}
+			recs[ln-1] = append(recs[ln-1], hx.L(hx.I(0), c04Meta(x)))
+			metas[ln-1] = append(metas[ln-1], x)
+		case *benchfmt.SyntaxError:
+			recs[ln-1] = append(recs[ln-1], hx.L(hx.I(1), hx.L()))
+			metas[ln-1] = append(metas[ln-1], nil)
+		}
+	}
+	if rdr.Err() != nil {
+		return rdr.Err()
+	}
+	// the retained copies, read after everything was scanned
+	itemsLate := make([]hx.Sx, len(lines))
+	var fullLate []hx.Sx
+	for i, l := range lines {
+		if l.unit {
+			items[i] = hx.L(hx.I(1), hx.S(l.u), hx.S(l.val), hx.List(recs[i]))
+			var late []hx.Sx
+			for _, m := range metas[i] {
+				if m == nil {
+					late = append(late, hx.L(hx.I(1), hx.L()))
+				} else {
+					late = append(late, hx.L(hx.I(0), c04Meta(m)))
+				}
+			}
+			itemsLate[i] = hx.L(hx.I(1), hx.S(l.u), hx.S(l.val), hx.List(late))
+			continue
+		}
+		k := results[i]
+		if k == nil {
+			return fmt.Errorf("no result for line %d (%q)", i+1, l.text)
+		}
+		var full, after []hx.Sx
+		for _, v := range k.full.Values {
+			full = append(full, hx.L(hx.F64(v.Value), hx.S(v.Unit), hx.F64(v.OrigValue), hx.S(v.OrigUnit)))
+		}
+		for _, v := range k.after.Values {
+			after = append(after, hx.L(hx.F64(v.Value), hx.S(v.Unit), hx.F64(v.OrigValue), hx.S(v.OrigUnit)))
+		}
+		fullLate = append(fullLate, hx.List(full))
+		itemsLate[i] = hx.L(hx.I(0), hx.List(k.wr), hx.List(k.mb), hx.Bool(k.kept), hx.List(after))
+	}
+	var gets []hx.Sx
+	var q []string
+	for _, x := range lookups {
+		gets = append(gets, hx.L(hx.S(x), c04Meta(rdr.Units().Get(x, "better"))))
+		q = append(q, strconv.Quote(x))
+	}
+	o.Count(fmt.Sprintf("long-text:buffer-refills=%d", (len(text)-1)/4096))
+	o.Add(hx.L(hx.I(5), hx.S(lit), hx.List(items), hx.List(itemsLate), hx.List(fullLate), hx.List(gets)),
+		c04LongInput{Kind: "long-text", Text: strconv.Quote(text), Bytes: len(text), Chunk: chunk, Filter: query, Lookups: q},
+		"long\x00"+lit+"\x00"+fmt.Sprint(chunk)+"\x00"+text, true, append(tags, "long-text")...)
+	return nil
+}
+
+// c04LongFams: units of EQUAL written length (trailing blanks are field
+// separators, so "B/op " occupies the bytes of "ns/op"); each family mixes
+// units that are rewritten (ns.., MB..) with units that pass through.
+var c04LongFams = [][]string{
+	{"ns/op", "us/op", "ms/op", "B/op ", "MB/s ", "MB/op", "ks/op", "B/s  ", "nS/op", "ns-op", "ns/oq"},
+	{"MB/s", "B/op", "ns/s", "us/s", "kB/s", "MB/t", "ns*s", "GB/s"},
+	{"ns", "MB", "us", "kB", "B ", "s ", "ms"},
+	{"sec/op", "ns/ops", "MB/sec", "B/sec ", "us/ops", "ns/op ", "MB/s  ", "allocs"},
+	{"allocs/op", "ns/widget", "MB/widget", "sec/op   ", "B/op     ", "us/widget"},
+	{"MB*ns/op", "kB*us/op", "B*sec/op", "ns/op   ", "MB/s-xns"},
+}
+
+// c04GenLong: lines of ONE constant length L (so that, after the scanner's
+// buffer is refilled, line k of the refilled part lies on the bytes of line k
+// of the text); a long run with one unit u0 crossing the 4096-byte boundary,
+// then lines whose unit field holds a DIFFERENT unit of EQUAL length at the
+// same offset, and further lines of u0 (and of the other units) after them.
+func c04GenLong(o *hx.Out, r *hx.Rng, n int) error {
+	vals := []float64{1, 3, 0, 123.5, 1e9, 1e-9, 1e6, -1, math.Inf(1), math.NaN(), 250, 42, 0.5, 7e300}
+	trim := func(u string) string { return strings.TrimRight(u, " ") }
+	one := func(i int, directed bool) error {
+		fam := c04LongFams[0]
+		if !directed || i >= 6 {
+			fam = c04LongFams[r.Intn(len(c04LongFams))]
+			if r.Chance(0.4) {
+				fam = c04LongFams[0]
+			}
+		}
+		u0 := fam[0]
+		if !directed && r.Chance(0.5) {
+			u0 = fam[r.Intn(len(fam))]
+		}
+		L := 32
+		if !directed || i >= 3 {
+			L = []int{32, 32, 32, 16 + len(u0) + 8, 64, 40, 33, 37, 50, 100, 128, 47}[r.Intn(12)]
+		}
+		nv := 1 // measurements per line
+		if !directed && r.Chance(0.2) {
+			nv = 2
+		}
+		min := len("BenchmarkX 1") + nv*(1+8+1+len(u0)) + 1
+		if L < min {
+			L = min + r.Intn(4)
+		}
+		// one bench line of exactly L bytes (incl. "\n"): the name is padded
+		bench := func(us []string) c04LongLine {
+			l := c04LongLine{}
+			var tail strings.Builder
+			for _, u := range us {
+				v := vals[r.Intn(len(vals))]
+				if r.Chance(0.4) {
+					v = float64(r.Intn(100000)) / 8
+				}
+				if len(c04FmtFloat(v)) > 8 {
+					v = 1
+				}
+				tail.WriteString(" " + c04FmtFloat(v) + " " + u)
+				l.us = append(l.us, trim(u))
+				l.vs = append(l.vs, v)
+			}
+			pad := L - 1 - len("Benchmark") - len(" 1") - tail.Len()
+			l.text = "Benchmark" + strings.Repeat("X", pad) + " 1" + tail.String()
+			return l
+		}
+		unitLine := func(u, val string) c04LongLine {
+			t := "Unit " + u + " better=" + val
+			if len(t) < L-1 {
+				t += strings.Repeat(" ", L-1-len(t))
+			}
+			return c04LongLine{text: t, unit: true, u: trim(u), val: val}
+		}
+		alt := func() string {
+			for {
+				if a := fam[r.Intn(len(fam))]; a != u0 {
+					return a
+				}
+			}
+		}
+		same := func() []string {
+			us := make([]string, nv)
+			for j := range us {
+				us[j] = u0
+			}
+			return us
+		}
+		var lines []c04LongLine
+		if !directed && r.Chance(0.3) {
+			lines = append(lines, unitLine(u0, "lower"))
+		}
+		// the run crossing the buffer boundary
+		n1 := (4096+L-1)/L + r.Range(0, 3) - len(lines)
+		if directed && i < 3 {
+			n1 = 130
+		}
+		blocks := (directed && i >= 6) || (!directed && r.Chance(0.25))
+		exact := blocks && (directed || r.Chance(0.5))
+		if exact {
+			// the run ends exactly with the last line that fits the first buffer
+			n1 = 4096/L - len(lines)
+			o.Count("class:long-text:run-ends-exactly-at-the-buffer-boundary")
+		}
+		for j := 0; j < n1; j++ {
+			us := same()
+			if !directed && !exact && r.Chance(0.02) { // a few other units already before the refill
+				us[r.Intn(nv)] = alt()
+			}
+			lines = append(lines, bench(us))
+		}
+		// after the refill
+		tail := r.Range(3, 40)
+		if r.Chance(0.15) {
+			tail = r.Range(4096/L, 2*4096/L+10) // a second refill
+		}
+		nalt := 0
+		if blocks {
+			// whole blocks of ONE other unit (each up to more than a buffer long), then u0 again
+			o.Count("class:long-text:blocks-of-one-other-unit-longer-than-half-a-buffer")
+			tail = 0
+			for b := r.Range(1, 3); b > 0; b-- {
+				a := alt()
+				nb := r.Range(4096/L/2, 4096/L+5)
+				if exact {
+					nb = r.Range(4096/L+1, 4096/L+5)
+				}
+				for j := nb; j > 0; j-- {
+					us := same()
+					us[r.Intn(nv)] = a
+					lines = append(lines, bench(us))
+					nalt++
+				}
+				for j := r.Range(1, 4096/L+5); j > 0 && b > 1; j-- {
+					lines = append(lines, bench(same()))
+				}
+			}
+		}
+		for j := 0; j < tail; j++ {
+			us := same()
+			if (j == 0 && (directed || r.Chance(0.4))) || r.Chance(0.25) {
+				us[r.Intn(nv)] = alt()
+				nalt++
+			}
+			lines = append(lines, bench(us))
+			if !directed && r.Chance(0.03) {
+				lines = append(lines, unitLine(fam[r.Intn(len(fam))], []string{"lower", "higher"}[r.Intn(2)]))
+			}
+		}
+		if nalt == 0 {
+			us := same()
+			us[0] = alt()
+			lines = append(lines, bench(us))
+		}
+		for j := r.Range(1, 4); j > 0; j-- { // further lines after it
+			lines = append(lines, bench(same()))
+		}
+		chunk := 0
+		if !directed && r.Chance(0.3) {
+			chunk = []int{1, 7, 32, 100, 1000, 4096, L, 2 * L}[r.Intn(8)]
+		}
+		_, b0 := benchunit.Tidy(1, trim(u0))
+		a := trim(alt())
+		_, ba := benchunit.Tidy(1, a)
+		lit := []string{trim(u0), b0, a, ba}[r.Intn(4)]
+		o.Count("class:long-text:run-of-one-unit-crosses-4096-then-equal-length-other-unit-at-same-offset-then-more-lines")
+		if b0 == trim(u0) {
+			o.Count("class:long-text:run-unit-passes-through")
+		} else {
+			o.Count("class:long-text:run-unit-is-rewritten")
+		}
+		if chunk > 0 {
+			o.Count("class:long-text:reads-in-chunks")
+		}
+		tag := "random"
+		if directed {
+			tag = "directed"
+		}
+		return c04Long(o, lit, lines, chunk, []string{trim(u0), b0, a, ba, "B/op"}, tag)
+	}
+	for i := 0; i < 8; i++ {
+		if err := one(i, true); err != nil {
+			return err
+		}
+	}
+	for i := 0; i < n; i++ {
+		if err := one(i, false); err != nil {
 			return err
 		}
 	}
@@ -887,7 +1245,7 @@ var c04Comp = []string{"ns", "MB", "B", "sec", "op", "s", "bytes", "xns", "nsx",
 var c04Sep = []string{"/", "*", "-", " ", "\t", "\u00a0", "\u2028", "\u3000", "\u0085", "\v", "//", "*/", "/*", "\u1680", "\n", "\u200b", "\u2003"}
 
 func genC04(o *hx.Out, r *hx.Rng, tier string, replay string) error {
-	o.Rule = "units built from components {ns MB B sec op s bytes xns nsx MBps µs é nsMB '' invalid-UTF-8 …} joined by / * - and ASCII/Unicode white space (exhaustive over a small alphabet up to a bound, then random longer ones, plus the fast-path literals and near misses), each with values from {0,-0,±Inf,NaN,subnormal,max,…} and random bit patterns; observed: benchunit.Tidy (twice), benchfmt.Reader Values, UnitMetadataMap.Get, .unit filters; plus sequences of 2-4 results of one metric written under its written and its base unit in every order (with unit lines in between) read through ONE Reader and judged by ONE Filter (Match then Apply), each result independently; the same with .unit regexps and value lists (.unit:/re/, .unit:(a OR /re/ ...)) on lines of 2-4 measurements where one measurement is named only by its written unit and another by its base unit (regexp.MatchString recorded per (pattern, unit)); and benchunit.Tidy called directly in order within this process, first of all (empty memo table): a unit whose base form still contains ns/MB and then that base form (every order, repeated; fresh units through a unique denominator token), units with ns/MB directly after a letter whose UTF-8 encoding ends in 0x85/0xA0, and ns/MB after multi-byte white space; and units with MORE THAN FOUR normalisable numerator components (5-8, thorough 5-12 ns/MB numerator tokens mixed with other words, -suffix parts, denominators incl. ns/MB that must stay; base form known by construction), each through Tidy twice + reader + metadata + filters, through ONE reader next to the same metric written in base units, and through direct Tidy calls unit/base/unit. non-trivial = the unit is rewritten; distinct by (unit, value bits)"
+	o.Rule = "units built from components {ns MB B sec op s bytes xns nsx MBps µs é nsMB '' invalid-UTF-8 …} joined by / * - and ASCII/Unicode white space (exhaustive over a small alphabet up to a bound, then random longer ones, plus the fast-path literals and near misses), each with values from {0,-0,±Inf,NaN,subnormal,max,…} and random bit patterns; observed: benchunit.Tidy (twice), benchfmt.Reader Values, UnitMetadataMap.Get, .unit filters; plus sequences of 2-4 results of one metric written under its written and its base unit in every order (with unit lines in between) read through ONE Reader and judged by ONE Filter (Match then Apply), each result independently; the same with .unit regexps and value lists (.unit:/re/, .unit:(a OR /re/ ...)) on lines of 2-4 measurements where one measurement is named only by its written unit and another by its base unit (regexp.MatchString recorded per (pattern, unit)); and benchunit.Tidy called directly in order within this process, first of all (empty memo table): a unit whose base form still contains ns/MB and then that base form (every order, repeated; fresh units through a unique denominator token), units with ns/MB directly after a letter whose UTF-8 encoding ends in 0x85/0xA0, and ns/MB after multi-byte white space; and units with MORE THAN FOUR normalisable numerator components (5-8, thorough 5-12 ns/MB numerator tokens mixed with other words, -suffix parts, denominators incl. ns/MB that must stay; base form known by construction), each through Tidy twice + reader + metadata + filters, through ONE reader next to the same metric written in base units, and through direct Tidy calls unit/base/unit; and texts LONGER than the line scanner's 4096-byte buffer (lines of one constant length L, a run of 4096/L+ lines of one unit crossing the boundary, then lines with a different unit of EQUAL written length in the same field position - e.g. ns/op then us/op, ms/op, 'B/op ' - and further lines after; whole-text and chunked io.Readers; 1-2 measurements per line; Unit lines) through ONE Reader and ONE Filter, every record judged when delivered AND the caller's retained copies (Result.Clone before/after Apply, *UnitMetadata) re-read after the whole text was scanned. non-trivial = the unit is rewritten; distinct by (unit, value bits)"
 	// table case: the rune class and float constants the model is evaluated with
 	o.Add(hx.L(hx.I(0), hx.List(unicodeRanges(unicode.IsSpace)), hx.F64(1e-9), hx.F64(1e6), hx.F64(1e9)),
 		map[string]string{"kind": "tables"}, "tables", false)
@@ -958,6 +1316,14 @@ func genC04(o *hx.Out, r *hx.Rng, tier string, replay string) error {
 		return err
 	}
 	if err := c04GenSeqF(o, r, nseq); err != nil {
+		return err
+	}
+	// texts longer than the scanner's buffer (own stream: the cases before and after keep their inputs)
+	nlong := 40
+	if tier == "thorough" {
+		nlong = 600
+	}
+	if err := c04GenLong(o, r.Split(), nlong); err != nil {
 		return err
 	}
 	// random
